@@ -101,7 +101,9 @@ func (k *c04Case) corrupt() string {
 		name := auparse.AuditMessageType(k.Type).String()
 		return fmt.Sprintf("type=%s msg=audit(%d.%03d:%d): %s", name, k.Sec, k.Msec, big, k.Body)
 	case "bad-type-name":
-		names := []string{"NOPE_NOT_A_TYPE", "UNKNOWN[65536]", "UNKNOWN[-1]", "UNKNOWN[x]", "UNKNOWN[", "UNKNOWN]", "SYSCALLS", "", "UNKNOWN[99999999999]", "SYS CALL"}
+		names := []string{"NOPE_NOT_A_TYPE", "UNKNOWN[65536]", "UNKNOWN[-1]", "UNKNOWN[x]", "UNKNOWN[", "UNKNOWN]", "SYSCALLS", "", "UNKNOWN[99999999999]", "SYS CALL",
+			// brackets in the wrong order or unbalanced
+			"UNKNOWN]1329[", "][", "]", "[", "[]", "]1329[", "UNKNOWN]]", "UNKNOWN[[", "]UNKNOWN[", "UNKNOWN]1329", "UNKNOWN[]", "[1329"}
 		_, after := k.render()
 		return "type=" + names[k.CorrArg%len(names)] + " msg=" + after
 	case "left-truncate":
